@@ -371,3 +371,34 @@ def c18(seed, n, inproc=2):
                 if a[0] != 'ERR':
                     fails.append(dict(key='c18:disabled:' + k1lib_hash(c.rust()), what='naming a trait whose feature is disabled ([%s] enabled) is not rejected' % ' '.join(F), input=c.rust(), features=F))
     return fails, [], dict(stats)
+
+# ---------------------------------------------------------------- C13
+def c13(seed, n, pool=None):
+    """an input that one of the syntactic classifiers of Spec/Invalid.v (written from the property text,
+    proved to imply Err on the model) marks invalid, and that the REAL macro accepts, is a failing input"""
+    pool = pool or list(gen.GENS.keys())
+    cases = []
+    for i in range(n):
+        c = gen.gen_case('c13-%d-%d' % (seed, i), 0, pool, want_fault=(i % 10 != 0))
+        cases.append(('c13-%d' % i, c))
+    real = k1.run_real([(i, c.rust()) for i, c in cases])
+    cls = k1.run_classes([(i, c.sx()) for i, c in cases])
+    fails = []
+    stats = collections.Counter()
+    for i, c in cases:
+        if i not in cls:
+            stats['unclassified'] += 1
+            continue
+        allc, modgap, gap = cls[i]
+        r = outcome(real[i])
+        stats['cases'] += 1
+        if allc:
+            stats['classified_invalid'] += 1
+            for k in allc:
+                stats['class:' + k] += 1
+        if r[0] == 'OK' and modgap:
+            fails.append(dict(key='c13:' + k1lib_hash(c.rust()), what='the request contains %s and is accepted instead of refused' % ', '.join(modgap), input=c.rust(), classes=modgap))
+        elif r[0] == 'OK' and allc and gap:
+            stats['known_gap_accepted'] += 1
+            fails.append(dict(key='c13:copy-attrs-unchecked-with-clone', what='known gap: Copy(...) attributes below the type level are not validated when Clone is educed', input=c.rust(), classes=allc))
+    return fails, [], dict(stats)
